@@ -6,7 +6,7 @@
 use libfuzzer_sys::fuzz_target;
 
 fuzz_target!(|data: &[u8]| {
-    if let Err(m) = pv::fuzzing::api_oracles(data) {
+    if let Err(m) = pv::fuzzing::api_oracles_scoped(data, pv::fuzzing::env_scope().as_deref()) {
         panic!("ORACLE {m}");
     }
 });
